@@ -125,6 +125,23 @@ theorem compile_accepts (ts : List Target) (w : World) : runCompile [] ts w = ru
 
 
 
+/-- `WriteCodeToFile` ranges over a Go map: the files arrive in any order.  With distinct names (map keys are) the directory
+ends up the same whatever the order. -/
+theorem writeCode_order_free (dir : String) (fs fs' : List (String × String)) (w : World) (p : String)
+    (hp : fs.Perm fs') (hn : (fs.map Prod.fst).Nodup) :
+    (writeCode dir fs w).read p = (writeCode dir fs' w).read p := by
+  rw [writeCode_eq, writeCode_eq, read_foldl_write, read_foldl_write]
+  congr 1
+  apply lookup_perm
+  · exact (List.reverse_perm _).trans (((hp.map _)).trans (List.reverse_perm _).symm)
+  · rw [List.map_reverse, List.map_map]
+    unfold List.Nodup
+    rw [List.pairwise_reverse]
+    have : (List.map (Prod.fst ∘ fun f : String × String => (outPath dir f.1, f.2)) fs) = (fs.map Prod.fst).map (outPath dir) := by
+      rw [List.map_map]; rfl
+    rw [this]
+    exact (List.Pairwise.map _ (fun a b hab e => hab (outPath_inj dir _ _ e.symm)) hn)
+
 /-- non-vacuity: two targets, one overwriting an existing longer file, one path left alone -/
 example :
     let ts : List Target := [⟨"Lua", "", .ok [("x.lua", "l")]⟩, ⟨"Go", "o/go", .ok [("a.go", "A"), ("b.go", "B")]⟩, ⟨"Java", "o/java", .ok [("A.java", "J")]⟩]
